@@ -159,7 +159,7 @@ def make_callable(m, is_async, log):
         src = 'class V(HMIXIN_):\n    def __init__(self, ctx=None):\n        self._ctx = ctx\n        HLAST_[0] = ctx\n'
         if body[0] == 'bindfail':
             # the view cannot be constructed: an unexpected exception before the method is even bound
-            src += '        raise RuntimeError("S3CR3T9")\n'
+            src += '        raise %s("S3CR3T9")\n' % {'type': 'TypeError', 'key': 'KeyError', 'value': 'ValueError'}.get(body[1] if len(body) > 1 else None, 'RuntimeError')
         if static:
             src += '    @staticmethod\n    %s %s(%s):\n' % (kw, fname, params)
         else:
